@@ -54,6 +54,12 @@ type c17Input struct {
 	Note    string          `json:"note,omitempty"`    // generator scenario
 	Arrays  [][]byte        `json:"arrays"`
 	Args    map[string]view `json:"args"`
+	// WarmArgs: views (into the same Arrays) for a warm-up call of the same function on the
+	// SAME key / AEAD / cipher.Block object, performed before the observed call.  The arrays
+	// of the warm-up call are caller memory of the observed call too: memory a helper retained
+	// from an earlier call (cached buffers, pools, state kept in the AEAD object) and writes
+	// later shows up as a change of those arrays.
+	WarmArgs map[string]view `json:"warm_args,omitempty"`
 }
 
 // ---------------------------------------------------------------------------------------
@@ -303,18 +309,23 @@ func c17Run(ctx *core.Ctx, in c17Input) error {
 		copy(arrs[i], a)
 		pre[i] = clone(a)
 	}
-	for name, v := range in.Args {
-		if v.Arr >= len(arrs) || (v.Arr >= 0 && (v.Off < 0 || v.Len < 0 || v.Len > v.Cap || v.Off+v.Cap > len(arrs[v.Arr]))) {
-			return fmt.Errorf("c17: view %q out of range", name)
+	for _, m := range []map[string]view{in.Args, in.WarmArgs} {
+		for name, v := range m {
+			if v.Arr >= len(arrs) || (v.Arr >= 0 && (v.Off < 0 || v.Len < 0 || v.Len > v.Cap || v.Off+v.Cap > len(arrs[v.Arr]))) {
+				return fmt.Errorf("c17: view %q out of range", name)
+			}
 		}
 	}
-	has := func(name string) bool { _, ok := in.Args[name]; return ok }
+	cur := in.Args // the views of the call being prepared (warm-up call first, if any)
+	has := func(name string) bool { _, ok := cur[name]; return ok }
 	vw := func(name string) view {
-		if v, ok := in.Args[name]; ok {
+		if v, ok := cur[name]; ok {
 			return v
 		}
 		return view{Arr: -1}
 	}
+	// objects shared between the warm-up call and the observed call
+	objs := map[string]any{}
 	get := func(name string) []byte {
 		v := vw(name)
 		if v.Arr < 0 {
@@ -331,164 +342,208 @@ func c17Run(ctx *core.Ctx, in c17Input) error {
 		return clone(pre[v.Arr][v.Off : v.Off+v.Len])
 	}
 
-	// the key
 	var key jwk.Key
 	var keyJSONBefore []byte
-	coqKey := "KAsym"
-	if in.KeyKind == "sym" {
-		if !has("key") || vw("key").Len == 0 {
-			return errors.New("c17: symmetric key needs a non-empty view")
-		}
-		k, err := jwk.FromRaw(get("key"))
-		if err != nil {
-			return err
-		}
-		key = k
-		coqKey = "(KSym " + coqView(vw("key")) + ")"
-	} else if in.KeyKind != "" {
-		k, ok := asymKeys[in.KeyKind]
-		if !ok {
-			return fmt.Errorf("c17: unknown key kind %q", in.KeyKind)
-		}
-		key = k
-		keyJSONBefore, _ = json.Marshal(key)
-	}
-
+	var coqKey string
 	var env envT
 	var results [][]byte
 	var err error
 	var call func()
 	var coqCall string
-	nres := 1
+	var nres int
 
-	switch in.Fn {
-	case "pad":
-		coqCall = fmt.Sprintf("CPad %s %s", coqView(vw("buf")), hx.CoqZ(int64(in.Size)))
-		call = func() { r, e := padding.PadPKCS7(get("buf"), in.Size); results, err = [][]byte{r}, e }
-	case "unpad":
-		coqCall = fmt.Sprintf("CUnpad %s %s", coqView(vw("buf")), hx.CoqZ(int64(in.Size)))
-		call = func() { r, e := padding.UnpadPKCS7(get("buf"), in.Size); results, err = [][]byte{r}, e }
-	case "wrap", "unwrap":
-		block, berr := aes.NewCipher(clone(in.KWKey))
-		if berr != nil {
-			return berr
-		}
-		if in.Fn == "wrap" {
-			coqCall = "CWrap " + coqView(vw("cek"))
-			call = func() { r, e := aeskw.Wrap(block, get("cek")); results, err = [][]byte{r}, e }
-		} else {
-			env.ok = refKWUnwrapOK(in.KWKey, cp("ct"))
-			coqCall = "CUnwrap " + coqView(vw("ct"))
-			call = func() { r, e := aeskw.Unwrap(block, get("ct")); results, err = [][]byte{r}, e }
-		}
-	case "seal", "open":
-		k, ok := aeadKinds[in.Kind]
-		if !ok {
-			return fmt.Errorf("c17: unknown aead kind %q", in.Kind)
-		}
-		data := "pt"
-		ctor := "CSeal"
-		if in.Fn == "open" {
-			data, ctor = "ct", "COpen"
-			env = envOpen(k, cp("key"), cp("nonce"), cp("ct"), cp("aad"))
-		}
-		coqCall = fmt.Sprintf("%s %s %s %s %s %s %s", ctor, k.coq, coqView(vw("key")), coqView(vw("dst")),
-			coqView(vw("nonce")), coqView(vw(data)), coqView(vw("aad")))
-		call = func() {
-			a, e := k.construct(get("key"))
-			if e != nil {
-				results, err = [][]byte{nil}, e
-				return
+	prep := func() error {
+		key, keyJSONBefore, coqKey = nil, nil, "KAsym"
+		env, results, err, call, coqCall, nres = envT{}, nil, nil, nil, "", 1
+		// the key
+		if in.KeyKind == "sym" {
+			if !has("key") || vw("key").Len == 0 {
+				return errors.New("c17: symmetric key needs a non-empty view")
 			}
-			if in.Fn == "seal" {
-				results = [][]byte{a.Seal(get("dst"), get("nonce"), get("pt"), get("aad"))}
+			ck := "jwk:" + coqView(vw("key"))
+			if k, ok := objs[ck]; ok {
+				key = k.(jwk.Key)
 			} else {
-				r, e := a.Open(get("dst"), get("nonce"), get("ct"), get("aad"))
+				k, err := jwk.FromRaw(get("key"))
+				if err != nil {
+					return err
+				}
+				key = k
+				objs[ck] = k
+			}
+			coqKey = "(KSym " + coqView(vw("key")) + ")"
+		} else if in.KeyKind != "" {
+			k, ok := asymKeys[in.KeyKind]
+			if !ok {
+				return fmt.Errorf("c17: unknown key kind %q", in.KeyKind)
+			}
+			key = k
+			keyJSONBefore, _ = json.Marshal(key)
+		}
+
+		switch in.Fn {
+		case "pad":
+			coqCall = fmt.Sprintf("CPad %s %s", coqView(vw("buf")), hx.CoqZ(int64(in.Size)))
+			call = func() { r, e := padding.PadPKCS7(get("buf"), in.Size); results, err = [][]byte{r}, e }
+		case "unpad":
+			coqCall = fmt.Sprintf("CUnpad %s %s", coqView(vw("buf")), hx.CoqZ(int64(in.Size)))
+			call = func() { r, e := padding.UnpadPKCS7(get("buf"), in.Size); results, err = [][]byte{r}, e }
+		case "wrap", "unwrap":
+			var block cipher.Block
+			if b, ok := objs["block"]; ok {
+				block = b.(cipher.Block)
+			} else {
+				b, berr := aes.NewCipher(clone(in.KWKey))
+				if berr != nil {
+					return berr
+				}
+				block = b
+				objs["block"] = b
+			}
+			if in.Fn == "wrap" {
+				coqCall = "CWrap " + coqView(vw("cek"))
+				call = func() { r, e := aeskw.Wrap(block, get("cek")); results, err = [][]byte{r}, e }
+			} else {
+				env.ok = refKWUnwrapOK(in.KWKey, cp("ct"))
+				coqCall = "CUnwrap " + coqView(vw("ct"))
+				call = func() { r, e := aeskw.Unwrap(block, get("ct")); results, err = [][]byte{r}, e }
+			}
+		case "seal", "open":
+			k, ok := aeadKinds[in.Kind]
+			if !ok {
+				return fmt.Errorf("c17: unknown aead kind %q", in.Kind)
+			}
+			data := "pt"
+			ctor := "CSeal"
+			if in.Fn == "open" {
+				data, ctor = "ct", "COpen"
+				env = envOpen(k, cp("key"), cp("nonce"), cp("ct"), cp("aad"))
+			}
+			coqCall = fmt.Sprintf("%s %s %s %s %s %s %s", ctor, k.coq, coqView(vw("key")), coqView(vw("dst")),
+				coqView(vw("nonce")), coqView(vw(data)), coqView(vw("aad")))
+			fn, ck := in.Fn, "aead:"+in.Kind+coqView(vw("key"))
+			call = func() {
+				var a cipher.AEAD
+				if o, ok := objs[ck]; ok {
+					a = o.(cipher.AEAD)
+				} else {
+					var e error
+					a, e = k.construct(get("key"))
+					if e != nil {
+						results, err = [][]byte{nil}, e
+						return
+					}
+					objs[ck] = a
+				}
+				_ = fn
+				if in.Fn == "seal" {
+					results = [][]byte{a.Seal(get("dst"), get("nonce"), get("pt"), get("aad"))}
+				} else {
+					r, e := a.Open(get("dst"), get("nonce"), get("ct"), get("aad"))
+					results, err = [][]byte{r}, e
+				}
+			}
+		case "encsym", "encrypt":
+			nres = 2
+			ctor := "CEncSym"
+			if in.Fn == "encrypt" {
+				ctor = "CEncrypt"
+			}
+			coqCall = fmt.Sprintf("%s %s %s %s %s %s", ctor, coqView(vw("pt")), coqAlg(in.Alg), coqKey,
+				coqView(vw("nonce")), coqView(vw("aad")))
+			call = func() {
+				var c, t []byte
+				if in.Fn == "encrypt" {
+					c, t, err = kitcrypto.Encrypt(get("pt"), in.Alg, key, get("nonce"), get("aad"))
+				} else {
+					c, t, err = kitcrypto.EncryptSymmetric(get("pt"), in.Alg, key, get("nonce"), get("aad"))
+				}
+				results = [][]byte{c, t}
+			}
+		case "decsym", "decrypt":
+			ctor := "CDecSym"
+			if in.Fn == "decrypt" {
+				ctor = "CDecrypt"
+			}
+			if in.KeyKind == "sym" {
+				kb := cp("key")
+				switch {
+				case hmacAlgKind[in.Alg] != "":
+					env = envOpen(aeadKinds[hmacAlgKind[in.Alg]], kb, cp("nonce"), append(cp("ct"), cp("tag")...), cp("aad"))
+				case strings.HasSuffix(in.Alg, "CBC"):
+					env.unpad = refCBCUnpad(kb, cp("nonce"), cp("ct"))
+				case strings.HasSuffix(in.Alg, "KW") && strings.HasPrefix(in.Alg, "A") && !strings.Contains(in.Alg, "GCM"):
+					env.ok = refKWUnwrapOK(kb, cp("ct"))
+				default:
+					env.ok = refLibAEADOpenOK(in.Alg, kb, cp("nonce"), cp("ct"), cp("tag"), cp("aad"))
+				}
+			}
+			coqCall = fmt.Sprintf("%s %s %s %s %s %s %s", ctor, coqView(vw("ct")), coqAlg(in.Alg), coqKey,
+				coqView(vw("nonce")), coqView(vw("tag")), coqView(vw("aad")))
+			call = func() {
+				var p []byte
+				if in.Fn == "decrypt" {
+					p, err = kitcrypto.Decrypt(get("ct"), in.Alg, key, get("nonce"), get("tag"), get("aad"))
+				} else {
+					p, err = kitcrypto.DecryptSymmetric(get("ct"), in.Alg, key, get("nonce"), get("tag"), get("aad"))
+				}
+				results = [][]byte{p}
+			}
+		case "encpub":
+			coqCall = fmt.Sprintf("CEncPub %s %s %s %s", coqView(vw("pt")), coqAlg(in.Alg), coqKey, coqView(vw("aad")))
+			call = func() {
+				r, e := kitcrypto.EncryptPublicKey(get("pt"), in.Alg, key, get("aad"))
 				results, err = [][]byte{r}, e
 			}
-		}
-	case "encsym", "encrypt":
-		nres = 2
-		ctor := "CEncSym"
-		if in.Fn == "encrypt" {
-			ctor = "CEncrypt"
-		}
-		coqCall = fmt.Sprintf("%s %s %s %s %s %s", ctor, coqView(vw("pt")), coqAlg(in.Alg), coqKey,
-			coqView(vw("nonce")), coqView(vw("aad")))
-		call = func() {
-			var c, t []byte
-			if in.Fn == "encrypt" {
-				c, t, err = kitcrypto.Encrypt(get("pt"), in.Alg, key, get("nonce"), get("aad"))
-			} else {
-				c, t, err = kitcrypto.EncryptSymmetric(get("pt"), in.Alg, key, get("nonce"), get("aad"))
+		case "decpriv":
+			coqCall = fmt.Sprintf("CDecPriv %s %s %s %s", coqView(vw("ct")), coqAlg(in.Alg), coqKey, coqView(vw("aad")))
+			call = func() {
+				r, e := kitcrypto.DecryptPrivateKey(get("ct"), in.Alg, key, get("aad"))
+				results, err = [][]byte{r}, e
 			}
-			results = [][]byte{c, t}
+		case "sign":
+			coqCall = fmt.Sprintf("CSign %s %s %s", coqView(vw("digest")), coqAlg(in.Alg), coqKey)
+			call = func() { r, e := kitcrypto.SignPrivateKey(get("digest"), in.Alg, key); results, err = [][]byte{r}, e }
+		case "verify":
+			nres = 0
+			coqCall = fmt.Sprintf("CVerify %s %s %s %s", coqView(vw("digest")), coqView(vw("sig")), coqAlg(in.Alg), coqKey)
+			call = func() { _, err = kitcrypto.VerifyPublicKey(get("digest"), get("sig"), in.Alg, key) }
+		case "parsekey":
+			nres = 0
+			coqCall = "CParseKey " + coqView(vw("raw"))
+			call = func() { _, err = kitcrypto.ParseKey(get("raw"), in.CType) }
+		default:
+			return fmt.Errorf("c17: unknown fn %q", in.Fn)
 		}
-	case "decsym", "decrypt":
-		ctor := "CDecSym"
-		if in.Fn == "decrypt" {
-			ctor = "CDecrypt"
-		}
-		if in.KeyKind == "sym" {
-			kb := cp("key")
-			switch {
-			case hmacAlgKind[in.Alg] != "":
-				env = envOpen(aeadKinds[hmacAlgKind[in.Alg]], kb, cp("nonce"), append(cp("ct"), cp("tag")...), cp("aad"))
-			case strings.HasSuffix(in.Alg, "CBC"):
-				env.unpad = refCBCUnpad(kb, cp("nonce"), cp("ct"))
-			case strings.HasSuffix(in.Alg, "KW") && strings.HasPrefix(in.Alg, "A") && !strings.Contains(in.Alg, "GCM"):
-				env.ok = refKWUnwrapOK(kb, cp("ct"))
-			default:
-				env.ok = refLibAEADOpenOK(in.Alg, kb, cp("nonce"), cp("ct"), cp("tag"), cp("aad"))
-			}
-		}
-		coqCall = fmt.Sprintf("%s %s %s %s %s %s %s", ctor, coqView(vw("ct")), coqAlg(in.Alg), coqKey,
-			coqView(vw("nonce")), coqView(vw("tag")), coqView(vw("aad")))
-		call = func() {
-			var p []byte
-			if in.Fn == "decrypt" {
-				p, err = kitcrypto.Decrypt(get("ct"), in.Alg, key, get("nonce"), get("tag"), get("aad"))
-			} else {
-				p, err = kitcrypto.DecryptSymmetric(get("ct"), in.Alg, key, get("nonce"), get("tag"), get("aad"))
-			}
-			results = [][]byte{p}
-		}
-	case "encpub":
-		coqCall = fmt.Sprintf("CEncPub %s %s %s %s", coqView(vw("pt")), coqAlg(in.Alg), coqKey, coqView(vw("aad")))
-		call = func() {
-			r, e := kitcrypto.EncryptPublicKey(get("pt"), in.Alg, key, get("aad"))
-			results, err = [][]byte{r}, e
-		}
-	case "decpriv":
-		coqCall = fmt.Sprintf("CDecPriv %s %s %s %s", coqView(vw("ct")), coqAlg(in.Alg), coqKey, coqView(vw("aad")))
-		call = func() {
-			r, e := kitcrypto.DecryptPrivateKey(get("ct"), in.Alg, key, get("aad"))
-			results, err = [][]byte{r}, e
-		}
-	case "sign":
-		coqCall = fmt.Sprintf("CSign %s %s %s", coqView(vw("digest")), coqAlg(in.Alg), coqKey)
-		call = func() { r, e := kitcrypto.SignPrivateKey(get("digest"), in.Alg, key); results, err = [][]byte{r}, e }
-	case "verify":
-		nres = 0
-		coqCall = fmt.Sprintf("CVerify %s %s %s %s", coqView(vw("digest")), coqView(vw("sig")), coqAlg(in.Alg), coqKey)
-		call = func() { _, err = kitcrypto.VerifyPublicKey(get("digest"), get("sig"), in.Alg, key) }
-	case "parsekey":
-		nres = 0
-		coqCall = "CParseKey " + coqView(vw("raw"))
-		call = func() { _, err = kitcrypto.ParseKey(get("raw"), in.CType) }
-	default:
-		return fmt.Errorf("c17: unknown fn %q", in.Fn)
+		return nil
 	}
 
 	panicked := false
-	func() {
+	run := func() {
 		defer func() {
 			if r := recover(); r != nil {
 				panicked = true
 			}
 		}()
 		call()
-	}()
+	}
+	if in.WarmArgs != nil {
+		cur = in.WarmArgs
+		if e := prep(); e != nil {
+			return e
+		}
+		run()
+		cur = in.Args
+		// what the observed call finds in memory
+		for i := range arrs {
+			pre[i] = clone(arrs[i])
+		}
+		panicked = false
+	}
+	if e := prep(); e != nil {
+		return e
+	}
+	run()
 
 	ec := errClass(err)
 	asym := false
@@ -691,11 +746,53 @@ func (b *builder) addOpt(name string, data []byte) {
 	b.add(name, data)
 }
 
+// addWarm: a warm-up call of the same function with the same key object and byte-identical
+// copies of every other argument in arrays of their own (aliasing between arguments kept).
+func (b *builder) addWarm() {
+	remap := map[int]int{}
+	kv, hasKey := b.in.Args["key"]
+	names := make([]string, 0, len(b.in.Args))
+	for n := range b.in.Args {
+		names = append(names, n)
+	}
+	sort.Strings(names)
+	w := map[string]view{}
+	for _, n := range names {
+		v := b.in.Args[n]
+		if v.Arr >= 0 && !(hasKey && v.Arr == kv.Arr) {
+			na, ok := remap[v.Arr]
+			if !ok {
+				na = len(b.in.Arrays)
+				b.in.Arrays = append(b.in.Arrays, clone(b.in.Arrays[v.Arr]))
+				remap[v.Arr] = na
+			}
+			v.Arr = na
+		}
+		w[n] = v
+	}
+	b.in.WarmArgs = w
+}
+
 func (b *builder) run(ctx *core.Ctx, note string) {
+	if b.r.Chance(1, 5) {
+		b.addWarm()
+		note += "/warm"
+	}
 	b.in.Note = note
 	if err := c17Run(ctx, b.in); err != nil {
 		panic(err)
 	}
+}
+
+// associated data / OAEP label: mostly short, one time in three around the sizes of the hash
+// functions and of their blocks (a helper hashing or MACing it in place needs that much room)
+var aadLens = []int{31, 32, 33, 47, 48, 49, 63, 64, 65, 100, 127, 128, 129, 200}
+
+func aadLen(r *hx.Rand) int {
+	if r.Chance(1, 3) {
+		return aadLens[r.Intn(len(aadLens))]
+	}
+	return r.Intn(20)
 }
 
 var blockLens = []int{0, 1, 7, 8, 15, 16, 17, 24, 31, 32, 33, 40, 47, 48, 49, 63, 64, 65}
@@ -833,7 +930,7 @@ func genAEAD(ctx *core.Ctx, n int) {
 		b.add("nonce", r.Bytes(nonceLen))
 		ptLen := pickLen(r)
 		pt := b.add("pt", r.Bytes(ptLen))
-		b.addOpt("aad", r.Bytes(r.Intn(20)))
+		b.addOpt("aad", r.Bytes(aadLen(r)))
 		note += "/" + b.addDst(pt, ptLen+16-ptLen%16+ak.tag)
 		b.run(ctx, note)
 
@@ -842,7 +939,7 @@ func genAEAD(ctx *core.Ctx, n int) {
 		b.in.Kind = kn
 		key := r.Bytes(ak.enc + ak.mac)
 		nonce := r.Bytes(16)
-		aad := r.Bytes(r.Intn(20))
+		aad := r.Bytes(aadLen(r))
 		a, _ := ak.construct(clone(key))
 		ct := a.Seal(nil, clone(nonce), r.Bytes(pickLen(r)), clone(aad))
 		note = "valid"
@@ -959,13 +1056,13 @@ func genSym(ctx *core.Ctx, perAlg int, top bool) {
 			}
 			b.add("pt", r.Bytes(ptLen))
 			b.addOpt("nonce", r.Bytes(nl))
-			b.addOpt("aad", r.Bytes(r.Intn(20)))
+			b.addOpt("aad", r.Bytes(aadLen(r)))
 			b.run(ctx, note)
 
 			// ---- decrypt: start from a valid encryption where the algorithm allows one
 			key := r.Bytes(keyLen)
 			nonce := r.Bytes(nonceLen)
-			aad := r.Bytes(r.Intn(20))
+			aad := r.Bytes(aadLen(r))
 			ptLen = pickLen(r)
 			if strings.HasSuffix(alg, "NOPAD") {
 				ptLen = 16 * r.Intn(5)
@@ -1057,14 +1154,14 @@ func genAsym(ctx *core.Ctx, perAlg int) {
 					note = "symkey"
 				}
 				b.add("pt", r.Bytes(ptLen))
-				b.addOpt("aad", r.Bytes(r.Intn(12)))
+				b.addOpt("aad", r.Bytes(aadLen(r)))
 				if top {
 					b.addOpt("nonce", r.Bytes(r.Intn(13)))
 				}
 				b.run(ctx, note)
 
 				// decrypt
-				aad := r.Bytes(r.Intn(12))
+				aad := r.Bytes(aadLen(r))
 				ct, eerr := kitcrypto.EncryptPublicKey(r.Bytes(r.Intn(64)), alg, asymKeys["rsa-pub"], clone(aad))
 				note = "valid"
 				if eerr != nil {
@@ -1101,6 +1198,10 @@ func genAsym(ctx *core.Ctx, perAlg int) {
 	}
 	sigKey := map[string]string{"RS": "rsa", "PS": "rsa", "ES256": "p256", "ES384": "p384", "ES512": "p521", "EdDSA": "ed"}
 	sigAlgs := append(kitcrypto.SupportedSignatureAlgorithms(), kitcrypto.Algorithm_HS256, "nope")
+	reps := perAlg / 4
+	if reps < 1 {
+		reps = 1
+	}
 	for _, alg := range sigAlgs {
 		kk := sigKey[alg]
 		if kk == "" && len(alg) >= 2 {
@@ -1109,64 +1210,74 @@ func genAsym(ctx *core.Ctx, perAlg int) {
 		if kk == "" {
 			kk = "rsa"
 		}
-		for k := 0; k < perAlg; k++ {
-			dl := hashLen(alg)
-			if alg == kitcrypto.Algorithm_EdDSA {
-				dl = r.Intn(80)
+		for k := 0; k < reps; k++ {
+			// EVERY length class of the "digest" argument relative to the hash size h of the
+			// algorithm: empty, shorter, h-1, h, h+1, the sizes of the other SHA-2 hashes, and a
+			// whole message (what EdDSA callers pass, and what callers of the others pass by mistake)
+			h := hashLen(alg)
+			type dclass struct {
+				n    int
+				note string
 			}
-			// sign
-			b := newB(r, "sign")
-			b.in.Alg = alg
-			b.in.KeyKind = kk + "-priv"
-			note := "ok"
-			d := dl
-			switch r.Intn(8) {
-			case 0:
-				d = []int{0, 1, 20, 33, 65}[r.Intn(5)]
-				note = "digestlen"
-			case 1:
-				b.in.KeyKind = asymKeyKinds[r.Intn(len(asymKeyKinds))]
-				note = "anykey"
-			case 2:
-				b.in.KeyKind = "sym"
-				b.add("key", r.Bytes(32))
-				note = "symkey"
+			classes := []dclass{{0, "d=0"}, {r.Range(1, h-2), "d<h"}, {h - 1, "d=h-1"}, {h, "d=h"}, {h + 1, "d=h+1"},
+				{r.Range(66, 300), "d=message"}, {r.Range(h+2, 2*h), "d<=2h"}}
+			for _, o := range []int{20, 32, 48, 64} {
+				if o != h {
+					classes = append(classes, dclass{o, fmt.Sprintf("d=sha%d", o*8)})
+				}
 			}
-			b.add("digest", r.Bytes(d))
-			b.run(ctx, note)
+			for _, dc := range classes {
+				// sign
+				b := newB(r, "sign")
+				b.in.Alg = alg
+				b.in.KeyKind = kk + "-priv"
+				note := "ok"
+				switch r.Intn(10) {
+				case 0:
+					b.in.KeyKind = asymKeyKinds[r.Intn(len(asymKeyKinds))]
+					note = "anykey"
+				case 1:
+					b.in.KeyKind = "sym"
+					b.add("key", r.Bytes(32))
+					note = "symkey"
+				}
+				b.add("digest", r.Bytes(dc.n))
+				b.run(ctx, dc.note+"/"+note)
 
-			// verify
-			digest := r.Bytes(dl)
-			sig, serr := kitcrypto.SignPrivateKey(clone(digest), alg, asymKeys[kk+"-priv"])
-			note = "valid"
-			if serr != nil {
-				sig = r.Bytes(64)
-				note = "random"
+				// verify: a signature over the same bytes where the algorithm produces one
+				digest := r.Bytes(dc.n)
+				sig, serr := kitcrypto.SignPrivateKey(clone(digest), alg, asymKeys[kk+"-priv"])
+				note = "valid"
+				if serr != nil {
+					sig = r.Bytes([]int{64, 96, 132, 256}[r.Intn(4)])
+					note = "nosig"
+				}
+				sig = clone(sig)
+				b = newB(r, "verify")
+				b.in.Alg = alg
+				b.in.KeyKind = kk + []string{"-pub", "-priv"}[r.Intn(2)]
+				switch r.Intn(10) {
+				case 0:
+					sig = flip(r, sig)
+					note = "corrupt-sig"
+				case 1:
+					digest = flip(r, digest)
+					note = "corrupt-digest"
+				case 2:
+					sig = r.Bytes(r.Intn(140))
+					note = "random-sig"
+				case 3:
+					b.in.KeyKind = asymKeyKinds[r.Intn(len(asymKeyKinds))]
+					note = "anykey"
+				case 4:
+					b.in.KeyKind = "sym"
+					b.add("key", r.Bytes(32))
+					note = "symkey"
+				}
+				b.add("digest", digest)
+				b.add("sig", sig)
+				b.run(ctx, dc.note+"/"+note)
 			}
-			b = newB(r, "verify")
-			b.in.Alg = alg
-			b.in.KeyKind = kk + []string{"-pub", "-priv"}[r.Intn(2)]
-			switch r.Intn(8) {
-			case 0:
-				sig = flip(r, sig)
-				note = "corrupt-sig"
-			case 1:
-				digest = flip(r, digest)
-				note = "corrupt-digest"
-			case 2:
-				sig = r.Bytes(r.Intn(140))
-				note = "random-sig"
-			case 3:
-				b.in.KeyKind = asymKeyKinds[r.Intn(len(asymKeyKinds))]
-				note = "anykey"
-			case 4:
-				b.in.KeyKind = "sym"
-				b.add("key", r.Bytes(32))
-				note = "symkey"
-			}
-			b.add("digest", digest)
-			b.add("sig", sig)
-			b.run(ctx, note)
 		}
 	}
 }
